@@ -31,7 +31,7 @@ fn mkvec(len: usize, cap: usize) -> Vec<Tracked> {
     v
 }
 fn info(len: usize) -> KindInfo {
-    KindInfo { len, sized: true, nmax: len + 2, ops: 0, ends: 0b111, nbuf: 0 }
+    KindInfo { len, sized: true, nmax: len + 2, ops: 0, ends: 0b111, nbuf: 0, lying: false }
 }
 const S_ANYCHUNK: &[u16] = &[M_CHUNK | M_BUF, M_SINGLE | M_LEN];
 
